@@ -16,6 +16,7 @@ pub mod c17;
 pub mod c18;
 pub mod c20;
 pub mod e2props;
+pub mod longsession;
 
 pub fn replay_value(path: &str) -> serde_json::Value {
     let s = std::fs::read_to_string(path).unwrap_or_else(|e| {
